@@ -185,7 +185,7 @@ func c16(r *core.Run) {
 				bad = append(bad, core.FuncName(w.Fn)+"@"+p.InstrPos(w.Instr))
 			}
 			for _, w := range fa.writes {
-				r.Bad("D1", core.FuncName(w.Fn), "unsynchronised-write("+a.label(f)+")", p.InstrPos(w.Instr),
+				r.Bad("D1", ownerName(p, w.Fn), "unsynchronised-write("+a.label(f)+")", p.InstrPos(w.Instr),
 					fmt.Sprintf("%s is written here without the queue mutex and not atomically, while %d other accesses (e.g. from publishing entry points, workers, Serve's subscribe) read it with no common lock: data race", f, len(fa.all)-len(fa.writes)))
 			}
 		}
